@@ -277,7 +277,10 @@ impl Record {
 /// stripped). Nested messages are printed with a " + " prefix / indentation.
 pub fn top_level_errors(stderr: &[u8]) -> usize {
     let text = strip_ansi(&String::from_utf8_lossy(stderr));
-    text.lines().filter(|l| l.starts_with("error: ")).count()
+    // nested messages are printed indented behind " + "; an error wrapped in
+    // a note ("note: match attempted … + error: no match found") is still an
+    // error diagnostic
+    text.lines().filter(|l| l.trim_start().trim_start_matches("+ ").starts_with("error: ")).count()
 }
 
 pub fn strip_ansi(s: &str) -> String {
